@@ -593,6 +593,8 @@ fn read_rows(inp: &Snap, out: &Snap, distinct: bool) -> Option<Vec<usize>> {
                 let id = c / 8;
                 (0..inp.n).find(|i| !(distinct && used[*i]) && inp.recs[*i].first().map(|c| c / 8) == Some(id))?
             }
+            // zero-width records: the weight (if the result carries weights) or else the target row
+            None if out.w.len() == out.n && inp.w.len() == inp.n && out.n > 0 => (0..inp.n).find(|i| !(distinct && used[*i]) && inp.w.get(*i) == out.w.get(ro))?,
             None => (0..inp.n).find(|i| !(distinct && used[*i]) && inp.tg.get(*i) == out.tg.get(ro))?,
         };
         used[k] = true;
@@ -838,10 +840,12 @@ fn oracle_step(ctx: &mut Ctx, op: &Op, inp: &Snap, res: &Res, idx: &Option<Vec<u
             }
         }
         Op::Chunks { size, .. } => {
-            // every full block, none skipped, none twice
-            ctx.require(res.outs.len() == inp.n / size, "chunk_count", &class, || format!("{} chunks of size {} from {} samples, want {}", res.outs.len(), size, inp.n, inp.n / size));
+            // every full block, none skipped, none twice (a trailing partial block — not yielded today —
+            // would be one more chunk of the same kind)
+            let full = inp.n / size;
+            ctx.require(res.outs.len() == full || (inp.n % size != 0 && res.outs.len() == full + 1), "chunk_count", &class, || format!("{} chunks of size {} from {} samples, want {}", res.outs.len(), size, inp.n, full));
             for (i, o) in res.outs.iter().enumerate() {
-                let blk: Vec<usize> = (i * size..(i + 1) * size).collect();
+                let blk: Vec<usize> = (i * size..((i + 1) * size).min(inp.n.max(full * size))).collect();
                 aligned(ctx, &class, &format!("chunk {}", i), inp, o, &blk, &cols, &tcols, &id, KEEP_NONE);
             }
         }
@@ -902,6 +906,44 @@ fn op_token(op: &Op, lay: Lay, std: bool, pick: usize, idx: &Option<Vec<usize>>,
         Op::Chunks { v, size } => format!("v={}:size={}", *v as u8, size),
     };
     format!("{}:{}:lay={}:pick={}", op.name(), body, lay.show(), pick)
+}
+
+/// The statement demands weights / names only "whenever the result carries" them.  Operations that
+/// today return bare records and targets (shuffle: no weights; bootstrap*, to_owned,
+/// into_single_target, sample_chunks: no weights, no names; feature_iter: no feature name unless
+/// there is exactly one feature) may start carrying them: what they carry has been checked by the
+/// oracle against the step's input (`aligned`), and is then left out of the comparison with the
+/// model and of the continuation (the next step rebuilds its dataset from this snapshot anyway).
+/// Likewise a trailing partial chunk.  Returns whether anything was left out.
+fn strip_optional(op: &Op, inp: &Snap, res: &mut Res) -> bool {
+    let mut any = false;
+    let (w, f, t) = match op {
+        Op::Shuffle { .. } => (true, false, false),
+        Op::Boot { .. } | Op::BootS { .. } | Op::BootF { .. } | Op::ToOwned { .. } | Op::IntoSingle | Op::Chunks { .. } => (true, true, true),
+        Op::FeatureIter { .. } => (false, inp.fnames.len() != 1, false),
+        _ => (false, false, false),
+    };
+    if let Op::Chunks { size, .. } = op {
+        if *size > 0 && inp.n % size != 0 && res.outs.len() == inp.n / size + 1 {
+            res.outs.pop();
+            any = true;
+        }
+    }
+    for o in res.outs.iter_mut() {
+        if w && !o.w.is_empty() {
+            o.w.clear();
+            any = true;
+        }
+        if f && !o.fnames.is_empty() {
+            o.fnames.clear();
+            any = true;
+        }
+        if t && !o.tnames.is_empty() {
+            o.tnames.clear();
+            any = true;
+        }
+    }
+    any
 }
 
 /// RNG choices of a step read back from its result
@@ -1115,13 +1157,16 @@ fn history(em: &mut Em, rng: &mut Rng, nmax: usize, maxlen: usize) {
                 steps.push(StepRec { op, pick: 0, lay });
                 break;
             }
-            Some(res) => {
+            Some(mut res) => {
                 em.count(&format!("ok_step:{}", op.name()));
                 em.count(&format!("ok_step:{}:r{}", op.name(), lay.r));
                 if matches!(op, Op::Boot { .. } | Op::BootS { .. } | Op::BootF { .. }) {
                     em.count(&format!("ok_draw:{}", match &op { Op::Boot { draw, .. } | Op::BootS { draw, .. } | Op::BootF { draw, .. } => *draw, _ => 0 }));
                 }
                 let (idx, fidx) = read_back(&op, &cur, &res);
+                if strip_optional(&op, &cur, &mut res) {
+                    em.count(&format!("optional_metadata_carried:{}", op.name()));
+                }
                 let pick = if res.outs.is_empty() { 0 } else { rng.below(res.outs.len()) };
                 toks.push(op_token(&op, lay, std, pick, &idx, &fidx));
                 steps.push(StepRec { op, pick, lay });
@@ -1165,7 +1210,10 @@ fn history(em: &mut Em, rng: &mut Rng, nmax: usize, maxlen: usize) {
             if !promised(&s.op, &cur, std_any(&st)) {
                 // outside the guard nothing is promised and nothing is compared with the model; but a
                 // dataset that *is* returned (instead of the documented panic) must still be aligned
-                if let Some(res) = exec_any(&st, &s.op) {
+                // (only the operations that cut or reshape: a zero chunk size or an empty bootstrap source
+                // has no result to look at)
+                let look = matches!(s.op, Op::SplitV { .. } | Op::SplitO { .. } | Op::IntoSingle);
+                if let Some(res) = if look { exec_any(&st, &s.op) } else { None } {
                     let n1_ok = match &s.op {
                         Op::SplitV { r } | Op::SplitO { r } => ceil_ratio(cur.n, *r) <= cur.n,
                         _ => false,
@@ -1187,9 +1235,19 @@ fn history(em: &mut Em, rng: &mut Rng, nmax: usize, maxlen: usize) {
                     out.push(format!("{}:panic", s.op.name()));
                     break;
                 }
-                Some(res) => {
+                Some(mut res) => {
                     let (idx, fidx) = read_back(&s.op, &cur, &res);
                     oracle_step(ctx, &s.op, &cur, &res, &idx, &fidx);
+                    // carried-although-optional metadata of the picked output is still checked against the
+                    // original tags, then left out of the comparison
+                    if ctx.fails.is_empty() {
+                        if let Some(o) = res.outs.get(s.pick) {
+                            let mut tr = truth.clone();
+                            update_truth(&mut tr, &s.op, &res, s.pick);
+                            tags_ok(ctx, &class, s.op.name(), o, &tr);
+                        }
+                    }
+                    strip_optional(&s.op, &cur, &mut res);
                     let txt = match (&s.op, &res.pairs) {
                         (Op::SampleIter { .. }, Some(prs)) => {
                             if prs.is_empty() {
